@@ -396,3 +396,47 @@ def check(run, prog, tier):
     run.rule("C06-g", "a counted value that only a C local owns (result of a function returning array_t*/mapping_t*/buffer_t*, or a reference taken by hand with ->ref++ and released by hand later) is anchored on the value stack, stored into reachable storage, returned or released before the function makes a call that runs LPC code outside a catch barrier: error() unwinds past C locals without releasing anything", 5)
     import rules.C06g as c06g
     c06g.check(run, prog, cg)
+
+    # ---- C06-h an array that is taken apart is owned by nobody else
+    run.rule("C06-h", "free_empty_array(X->F) releases the block of an array whose items were moved out (transfer_push_some_svalues) without touching the items: the array in record field F must have exactly one holder. No site in the driver hands out another reference to the array in that field (`X->F->ref++`, push_array/assign of X->F): the second holder would keep an array whose items are owned, and later released, by someone else", 1)
+    nh = 0
+    for f in sorted(prog.functions(), key=lambda x: (x.file, x.line)):
+        for b, i, n in f.calls("free_empty_array"):
+            a = strip(n["args"][0]) if n.get("args") else {}
+            if a.get("k") != "Mem" or not a.get("rec"):
+                continue
+            key = (a.get("rec"), a.get("f"))
+            nh += 1
+            run.saw(f)
+            sharers = []
+            for g in prog.functions():
+                alias = set()
+                for b2, i2, n2 in g.nodes():
+                    if n2.get("k") == "Asg" and n2.get("op") == "=" and strip(n2["L"]).get("k") == "Ref" and strip(n2["L"]).get("id") is not None:
+                        r2 = strip(n2["R"])
+                        if r2.get("k") == "Mem" and (r2.get("rec"), r2.get("f")) == key:
+                            alias.add(strip(n2["L"])["id"])
+                    elif n2.get("k") == "Decl":
+                        for v2 in n2.get("vars", ()):
+                            r2 = strip(v2.get("init")) if isinstance(v2.get("init"), dict) else {}
+                            if r2.get("k") == "Mem" and (r2.get("rec"), r2.get("f")) == key:
+                                alias.add(v2.get("id"))
+                for b2, i2, n2 in g.nodes():
+                    tgt = None
+                    if n2.get("k") == "Un" and n2.get("op") == "++":
+                        tgt = strip(n2["e"])
+                    elif n2.get("k") == "Asg" and n2.get("op") == "+=":
+                        tgt = strip(n2["L"])
+                    if tgt is not None and tgt.get("k") == "Mem" and tgt.get("f") == "ref":
+                        base = strip(tgt["b"])
+                        if (base.get("k") == "Mem" and (base.get("rec"), base.get("f")) == key) or (base.get("k") == "Ref" and base.get("id") in alias and base.get("id") is not None):
+                            sharers.append("%s() line %s: %s" % (g.name, n2.get("l"), show(n2)[:40]))
+                    if n2.get("k") == "Call" and n2.get("fn") in ("push_array", "push_refed_array", "put_array") and n2.get("args"):
+                        a2 = strip(n2["args"][0])
+                        if a2.get("k") == "Mem" and (a2.get("rec"), a2.get("f")) == key and n2.get("fn") == "push_array":
+                            sharers.append("%s() line %s: %s" % (g.name, n2.get("l"), show(n2)[:40]))
+            run.ob("C06-h", "sole-holder:%s:%s.%s" % (f.name, key[0], key[1]), not sharers,
+                   "no site takes a second reference to the array in %s.%s, which %s() takes apart with free_empty_array()" % (key[0], key[1], f.name) if not sharers else
+                   "%s() takes the array in %s.%s apart (items moved to the stack, block released with free_empty_array at line %s) but %s gives it a second holder: that holder keeps items which the callee's frame owns and releases" % (f.name, key[0], key[1], n.get("l"), "; ".join(sharers[:3])),
+                   f.file, n.get("l"), f.name, what="an array that is dismantled with free_empty_array() is shared: %s" % "; ".join(sharers[:2]))
+    run.need(nh >= 1, "free_empty_array() of a record field (found %d)" % nh)
